@@ -204,10 +204,14 @@ pub fn parse_line(line: &str) -> LineInfo {
             continue;
         }
 
-        if has_backslash && sep.is_empty() && (c == '>' || c == '<') {
+        if has_backslash && sep.is_empty() &&
+                (c == '>' || c == '<' || c == '*' || c == '~' || c == '&' || c == '{' || c == '`' ||
+                 (c == '$' && !token.is_empty())) {
+            // an escaped operator / expansion character makes the word literal
             sep_made = String::from("'");
             token.push(c);
             has_backslash = false;
+            new_round = false;
             continue;
         }
 
